@@ -2,13 +2,14 @@ package main
 
 import (
 	"context"
-	"sort"
 	"fmt"
 	"os"
 	"os/exec"
 	"path/filepath"
 	"regexp"
+	"sort"
 	"strings"
+	"sync/atomic"
 	"time"
 )
 
@@ -269,6 +270,8 @@ func (e *Engine) getModel(file, text string, o Obligation) string {
 	return s
 }
 
+var batchSerial int64
+
 // solveBatch discharges many obligations of one function in a single
 // incremental solver process (push/pop), feeding the declarations in program
 // order so that each obligation sees exactly the assumptions made before it.
@@ -300,28 +303,115 @@ func solveBatch(dir string, e *Engine, obls []Obligation, timeout time.Duration)
 		copy(res, out)
 		_ = orig
 	}()
+	serial := atomic.AddInt64(&batchSerial, 1)
+	fn := filepath.Join(dir, fmt.Sprintf("batch%04d_%s_%s_%d.smt2", serial, fileSafe(obls[0].Fn), obls[0].Kind, len(obls)))
+	for i, o := range obls {
+		res[i] = Result{Name: o.Name, Group: o.Group, Kind: o.Kind, Fn: o.Fn, File: fn, Known: o.Known}
+	}
+	// Stage A: runs of members between which no assumption is made (only
+	// definitions) see the same facts, so their conjunction can be asked for
+	// at once; a run that is proved that way is done. This is what keeps the
+	// type-derived step clauses (one per kind and field, at every back edge of a
+	// big statement switch) affordable.
+	proved := make([]bool, len(obls))
+	{
+		type run struct{ lo, hi int }
+		var runs []run
+		lo := 0
+		for i := 1; i <= len(obls); i++ {
+			cut := i == len(obls)
+			if !cut {
+				for p := obls[i-1].Prefix; p < obls[i].Prefix; p++ {
+					if strings.HasPrefix(e.decls[p], "(assert") {
+						cut = true
+						break
+					}
+				}
+			}
+			if cut {
+				if i-lo >= 3 {
+					runs = append(runs, run{lo, i})
+				}
+				lo = i
+			}
+		}
+		if len(runs) > 0 {
+			var sb strings.Builder
+			sb.WriteString("(set-option :timeout 6000)\n")
+			sb.WriteString(e.prelude())
+			pos := 0
+			for _, r := range runs {
+				for ; pos < obls[r.hi-1].Prefix; pos++ {
+					sb.WriteString(e.decls[pos] + "\n")
+				}
+				sb.WriteString("(push 1)\n(assert (not (and")
+				for _, o := range obls[r.lo:r.hi] {
+					sb.WriteString(fmt.Sprintf(" (=> %s %s)", o.Reach, o.Prop))
+				}
+				sb.WriteString(")))\n(check-sat)\n(pop 1)\n")
+			}
+			text := sb.String()
+			gfn := strings.TrimSuffix(fn, ".smt2") + "_runs.smt2"
+			os.WriteFile(gfn, []byte(text), 0o644)
+			if !strings.Contains(text, interiorPtr) && len(text) <= 8<<20 {
+				total := time.Duration(len(runs))*7*time.Second + 10*time.Second
+				ctx, cancel := context.WithTimeout(context.Background(), total)
+				t0 := time.Now()
+				out, _ := exec.CommandContext(ctx, "z3-new", "-T:"+fmt.Sprint(int(total.Seconds())), gfn).CombinedOutput()
+				cancel()
+				secs := time.Since(t0).Seconds()
+				var lines []string
+				bad := false
+				for _, l := range strings.Split(string(out), "\n") {
+					l = strings.TrimSpace(l)
+					if l == "sat" || l == "unsat" || l == "unknown" || strings.HasPrefix(l, "timeout") {
+						lines = append(lines, l)
+					} else if strings.HasPrefix(l, "(error") {
+						bad = true
+					}
+				}
+				if !bad {
+					for k, r := range runs {
+						if k < len(lines) && lines[k] == "unsat" {
+							for i := r.lo; i < r.hi; i++ {
+								proved[i] = true
+								res[i].Verdict, res[i].Solver, res[i].Secs, res[i].File, res[i].Bytes = "unsat", "z3-new(run)", secs/float64(len(obls)), gfn, len(text)
+							}
+						}
+					}
+				}
+			}
+		}
+	}
 	var sb strings.Builder
 	// every check-sat of the batch gets a short limit: what is not immediate is
 	// left to the individual (sliced, portfolio) path
 	sb.WriteString("(set-option :timeout 2500)\n")
 	sb.WriteString(e.prelude())
 	pos := 0
-	for _, o := range obls {
+	var asked []int
+	for i, o := range obls {
+		if proved[i] {
+			continue
+		}
 		for ; pos < o.Prefix; pos++ {
 			sb.WriteString(e.decls[pos] + "\n")
 		}
 		sb.WriteString(fmt.Sprintf("(push 1)\n(assert (not (=> %s %s)))\n(check-sat)\n(pop 1)\n", o.Reach, o.Prop))
+		asked = append(asked, i)
+	}
+	if len(asked) == 0 {
+		return res
 	}
 	text := sb.String()
-	fn := filepath.Join(dir, "batch_"+fileSafe(obls[0].Fn)+"_"+obls[0].Kind+fmt.Sprintf("_%d", len(obls))+".smt2")
 	os.WriteFile(fn, []byte(text), 0o644)
-	for i, o := range obls {
-		res[i] = Result{Name: o.Name, Group: o.Group, Kind: o.Kind, Fn: o.Fn, File: fn, Known: o.Known, Bytes: len(text)}
+	for _, i := range asked {
+		res[i].Bytes = len(text)
 	}
 	if strings.Contains(text, interiorPtr) || len(text) > 8<<20 {
 		return res
 	}
-	total := time.Duration(len(obls))*3*time.Second + 10*time.Second
+	total := time.Duration(len(asked))*3*time.Second + 10*time.Second
 	_ = timeout
 	ctx, cancel := context.WithTimeout(context.Background(), total)
 	defer cancel()
@@ -337,8 +427,8 @@ func solveBatch(dir string, e *Engine, obls []Obligation, timeout time.Duration)
 			return res // malformed for z3: let the individual path report it
 		}
 	}
-	for i := range obls {
-		if i < len(lines) && lines[i] == "unsat" {
+	for k, i := range asked {
+		if k < len(lines) && lines[k] == "unsat" {
 			res[i].Verdict, res[i].Solver, res[i].Secs = "unsat", "z3-new(batch)", secs/float64(len(obls))
 		}
 	}
